@@ -4,10 +4,12 @@ import (
 	"encoding/base64"
 	"encoding/json"
 	"fmt"
+	"strings"
 	"time"
 
 	sdk "github.com/cosmos/cosmos-sdk/types"
 	abci "github.com/tendermint/tendermint/abci/types"
+	tmproto "github.com/tendermint/tendermint/proto/tendermint/types"
 )
 
 // Tx is one concrete, replayable transaction (or direct handler call).
@@ -41,7 +43,9 @@ type Block struct {
 	FailBurn    *bool    `json:"fail_burn,omitempty"`
 	Crash       int      `json:"crash,omitempty"` // 0 none, -1 die before Commit, k>0 die at k-th batch write of Commit
 	Queries     []Query  `json:"queries,omitempty"`
-	Note        string   `json:"note,omitempty"`
+	// Export: after this block's Commit the operator exports the genesis and restarts a fresh chain from it.
+	Export bool   `json:"export,omitempty"`
+	Note   string `json:"note,omitempty"`
 }
 
 // Trace is the replay file.
@@ -164,6 +168,8 @@ type Run struct {
 	Log             []string // deterministic event log for the self-test (digests only)
 	KeepLog         bool
 	InfraErr        error // harness/infrastructure trouble (exit 2), never a violation
+	LastExport      json.RawMessage
+	ExportValidate  bool // run ModuleBasics.ValidateGenesis on every export (C12)
 
 	currentBlockTxBytes []deliveredTx
 }
@@ -265,7 +271,7 @@ func (r *Run) Drive(src Source) {
 // ExecBlock runs one block. Transactions come from b.Txs when src is nil, else from src.NextTx.
 func (r *Run) ExecBlock(b *Block, src Source) {
 	c := r.Chain
-	rec := Block{DtNs: b.DtNs, BankFail: b.BankFail, FailDestOn: b.FailDestOn, FailDestOff: b.FailDestOff, FailBurn: b.FailBurn, Crash: b.Crash, Note: b.Note}
+	rec := Block{DtNs: b.DtNs, BankFail: b.BankFail, FailDestOn: b.FailDestOn, FailDestOff: b.FailDestOff, FailBurn: b.FailBurn, Crash: b.Crash, Export: b.Export, Note: b.Note}
 	defer func() { r.Recorded = append(r.Recorded, rec) }()
 	r.TxIdx = -1
 	r.currentBlockTxBytes = nil
@@ -346,6 +352,9 @@ func (r *Run) ExecBlock(b *Block, src Source) {
 			r.AppHashes = append(r.AppHashes, hash)
 			r.logf("H%d commit %x end_ev=%s", c.Height, hash, DigestEvents(eresp.Events))
 		}
+	}
+	if r.Chain.Halted == nil && b.Export {
+		r.ExportRestart()
 	}
 	if r.Chain.Halted == nil {
 		for _, m := range r.Monitors {
@@ -451,4 +460,63 @@ func (r *Run) crashAndRecover(b *Block) {
 	hash, _ := nc.Commit()
 	r.AppHashes = append(r.AppHashes, hash)
 	r.logf("H%d recommit %x", nc.Height, hash)
+}
+
+// ExportRestart: the operator exports the application state at the current height, validates it and starts a
+// fresh chain (new disk) from it, which the run then continues on. Problems are reported as C12 violations.
+func (r *Run) ExportRestart() {
+	c := r.Chain
+	var appState json.RawMessage
+	var height int64
+	pi := catch("ExportAppStateAndValidators", func() {
+		exp, err := c.App.ExportAppStateAndValidators(false, nil)
+		if err != nil {
+			panic(err)
+		}
+		appState, height = exp.AppState, exp.Height
+	})
+	r.Stats.Inc("fault.export_restart")
+	if pi != nil {
+		r.Violate("C12", "export", "export-panic:"+pi.Site(), "exporting the state at height %d failed: %s", c.Height, pi.Value)
+		return
+	}
+	if r.ExportValidate {
+		if err := ValidateGenesisJSON(appState); err != nil {
+			r.Violate("C12", "export", "exported-genesis-invalid:"+GenesisErrorClass(err), "exported genesis at height %d fails validation: %v", c.Height, err)
+			if r.StopOnViolation {
+				return
+			}
+		}
+	}
+	vals, now, blocks, txs, bank := c.Vals, c.Now, c.Blocks, c.Txs, c.Bank
+	r.CrashDB = NewCrashDB()
+	nc := NewChain(r.CrashDB, bank)
+	nc.Vals = vals
+	nc.Blocks, nc.Txs = blocks, txs
+	if pi := nc.InitChain(appState, now, height); pi != nil {
+		r.Violate("C12", "import", "import-panic:"+pi.Site(), "a fresh chain cannot be initialised from the genesis exported at height %d: %s", c.Height, firstLine(pi.Value))
+		return
+	}
+	nc.Header = tmproto.Header{ChainID: ChainID, Height: nc.Height, Time: now}
+	r.Chain = nc
+	r.LastExport = appState
+}
+
+// GenesisErrorClass maps a genesis validation error to a stable class name (part of violation signatures).
+func GenesisErrorClass(err error) string {
+	msg := err.Error()
+	switch {
+	case strings.Contains(msg, "vesting start-time cannot be before end-time"):
+		return "vesting-account-start-not-before-end"
+	case strings.Contains(msg, "when burn is set to true account cannot exist"), strings.Contains(msg, "when burn is set to false account must exist"):
+		return "distributor-burn-state-shape"
+	}
+	// first words only
+	if i := strings.Index(msg, ":"); i > 0 && i < 60 {
+		msg = msg[:i]
+	}
+	if len(msg) > 60 {
+		msg = msg[:60]
+	}
+	return strings.ReplaceAll(msg, " ", "-")
 }
